@@ -281,6 +281,7 @@ func (w *World) Commit(n string) int {
 	c.EndBlock()
 	c.App.Commit()
 	DetRecord(fmt.Sprintf("commit|%x", c.App.LastCommitID().Hash), nil)
+	c.MaybeRestart()
 	c.Now = w.Now.Add(w.Skew[n])
 	c.Header.Height = c.App.LastBlockHeight() + 1
 	c.Header.Time = c.Now
